@@ -58,7 +58,7 @@ def main():
         meta["checks"] = {}
         for p in pids:
             t0 = time.time()
-            rcc, outc = sh("./check %s --tier quick" % p, env={"VERIF_REPO": wt}, cwd=VERIF)
+            rcc, outc = sh("./check %s --tier quick" % p, env={"VERIF_REPO": wt, "VERIF_EVIDENCE_DIR": "/var/tmp/seed_evidence"}, cwd=VERIF)
             lines = [ln for ln in outc.splitlines() if ln.startswith(("VIOLATION", "OK ", "FAIL", "MACHINERY", "MODEL-DRIFT", "KNOWN-FINDING"))]
             meta["checks"][p] = {"exit": rcc, "wall_s": round(time.time() - t0, 1), "lines": [ln[:300] for ln in lines[:6]]}
             # evidence/replays written by this run belong to the mutant, not to /repo: restore them
